@@ -251,6 +251,9 @@ class Adapter:
             if fam != "UDP" and ent is not None and ent[0] in params and params[ent[0]].default is not inspect.Parameter.empty \
                     and params[ent[0]].default is not None:
                 out.append(f)
+        # the alias octets of the talker alias link controls (one constructor argument, default b"", carried in 16-bit limbs)
+        if fam in ("FullLC96", "FullLC77") and "talker_alias_data_1" in vals and params["talker_alias_data"].default is not None:
+            out.append("talker_alias_data_1")
         return out
 
     def build(self, name, vals, plain=False, omit=()):
@@ -299,7 +302,7 @@ class Adapter:
             if "longitude_raw" in vals:
                 kw["longitude"] = signed(vals["longitude_raw"], 25) * (360 / 2 ** 25)
                 kw["latitude"] = signed(vals["latitude_raw"], 24) * (180 / 2 ** 24)
-            if "talker_alias_data_1" in vals:
+            if "talker_alias_data_1" in vals:     # (left out as a whole: the driver omits every limb together)
                 kw["talker_alias_data"] = limbs_to_bits(vals, "talker_alias_data", 8).tobytes()
             return FullLinkControl(flco=M["FLCOs"][sub], crc=crc, **kw)
         if fam == "ShortLC":
@@ -310,7 +313,10 @@ class Adapter:
             return PIHeader(data=limbs_to_bits(vals, "data").tobytes())
         if fam.startswith("Rate"):
             C, T = self.rate_classes(fam)
+            # the block's octets as the caller happens to hold them: bytes, a bytes subclass, a bytearray, a memoryview slice
+            from harness import gen
             data = limbs_to_bits(vals, "data", 8).tobytes()
+            data = gen.as_caller_buffer(data, sum(data) + len(data))
             if "crc32_1" in vals:
                 kw["crc32"] = (vals["crc32_1"] << 16) | vals["crc32_2"]
             return C(data=data, packet_type=T[sub], **kw)
